@@ -293,6 +293,9 @@ func (w *nftWorkload) recipient() string {
 	rng := w.run.Rng
 	if rng.Intn(8) == 0 {
 		a := sdk.AccAddress([]byte(fmt.Sprintf("nft-fresh-addr-%05d", rng.Intn(50)))).String()
+		if rng.Intn(2) == 0 {
+			a = sdk.AccAddress([]byte(fmt.Sprintf("nft-fresh-32-byte-address--%05d", rng.Intn(50)))).String()
+		}
 		w.addrs[a] = true
 		return a
 	}
